@@ -17,17 +17,17 @@
 (***************************************************************************)
 EXTENDS PyMiniData, Json
 
-CONSTANTS SkSet,      \* skeleton ids to use
-          Alpha,      \* "core" | "full"
-          InputSet,   \* set of <<a, b>>
-          Chain       \* TRUE: every top-level statement after the first reads something an earlier statement of
-                      \* the body wrote, and the returned variable was written by the last statement / the body
+CONSTANTS Families,   \* set of [sk: skeleton id, alpha: name of the alphabet, chain: BOOLEAN]
+                      \* chain = TRUE: every top-level statement after the first (except calls) reads something an
+                      \* earlier statement of the body wrote; the returned variable was written by the last
+                      \* statement / the body
+          InputSet    \* set of <<a, b>>
 
 (* ---- alphabet of simple statements ---- *)
 Plain == {Const("x", 0), Const("x", 1), Const("y", 1),
           Bin("x", "x", "y", "add"), Bin("y", "x", "a", "add"), Bin("x", "a", "b", "add"),
           Bin("x", "x", "y", "mul"), Bin("y", "y", "b", "add"), Copy("y", "x"), Copy("x", "b")}
-Calls == {Call("x", "h", "y"), Call("y", "g", "x"), Call("x", "g", "a"), Call("y", "h", "b")}
+Calls == {Call("x", "h", "y"), Call("y", "g", "x"), Call("x", "g", "a"), Call("y", "h", "b"), Call("x", "h", "a")}
 Attrs == {Store("o", 0, "x"), Store("o", 0, "a"), Store("p", 0, "y"), Store("o", 1, "y"),
           Load("x", "o", 0), Load("y", "p", 0), Load("x", "o", 1), Load("x", "p", 1)}
 Lists == {Store("l", 0, "x"), Store("l", 1, "y"), Store("l", 0, "b"), Load("x", "l", 0), Load("y", "l", 1)}
@@ -40,11 +40,17 @@ CoreAlpha == {Const("x", 1), Copy("y", "x"), Bin("x", "x", "y", "add"), Bin("x",
               Store("l", 0, "x"), Store("l", 1, "y"), Load("x", "l", 0),
               Store("d", 0, "x"), Store("d", 1, "a"), Load("x", "d", 0), Load("y", "d", 1),
               Copy("G", "x"), Copy("x", "G")}
-Alphabet == IF Alpha = "core" THEN CoreAlpha ELSE FullAlpha
+(* themed alphabets for exhaustive enumeration of three-statement programs *)
+AttrAlpha == Attrs \cup {Store("p", 0, "a"), Store("p", 1, "y"), Const("y", 1), Bin("x", "a", "b", "add")}
+ContAlpha == Lists \cup Dicts \cup {Const("y", 1), Bin("x", "a", "b", "add")}
+GlobAlpha == Globs \cup {Call("y", "g", "x"), Call("x", "g", "a"), Const("x", 1), Bin("x", "x", "y", "add")}
+AlphaOf(name) == CASE name = "core" -> CoreAlpha [] name = "attr" -> AttrAlpha [] name = "cont" -> ContAlpha
+                   [] name = "glob" -> GlobAlpha [] OTHER -> FullAlpha
+Fam(n, name, ch) == [sk |-> n, alpha |-> name, chain |-> ch]
 
 (* ---- what a statement needs / provides (names and cells of the must-defined analysis) ---- *)
-(* al = TRUE: p is an alias of o (p = o); FALSE: p is a second object (p = Box()) *)
-Cell(o, f, al) == IF o = "o" \/ (o = "p" /\ al) THEN (IF f = 0 THEN "o0" ELSE "o1")
+(* al = "alias": p is an alias of o (p = o); "new": p is a second object (p = Box()); "none": p not used yet *)
+Cell(o, f, al) == IF o = "o" \/ (o = "p" /\ al = "alias") THEN (IF f = 0 THEN "o0" ELSE "o1")
                   ELSE IF o = "p" THEN (IF f = 0 THEN "p0" ELSE "p1")
                   ELSE IF o = "l" THEN (IF f = 0 THEN "l0" ELSE "l1") ELSE (IF f = 0 THEN "d0" ELSE "d1")
 Reads(s, al) == CASE s.t = "bin" -> {s.y, s.z} [] s.t \in {"copy", "call"} -> {s.y}
@@ -112,16 +118,19 @@ IsStmt(e) == e.t \notin {"var", "cnt"}
 (* the creation statements the body needs *)
 Prologue(h, al) ==
   LET m == UNION {Mentions(h[i]) : i \in {j \in DOMAIN h : IsStmt(h[j])}}
-  IN (IF "o" \in m \/ ("p" \in m /\ al) THEN <<New("o")>> ELSE <<>>)
-     \o (IF "p" \in m THEN (IF al THEN <<Copy("p", "o")>> ELSE <<New("p")>>) ELSE <<>>)
+  IN (IF "o" \in m \/ ("p" \in m /\ al = "alias") THEN <<New("o")>> ELSE <<>>)
+     \o (IF "p" \in m THEN (IF al = "alias" THEN <<Copy("p", "o")>> ELSE <<New("p")>>) ELSE <<>>)
      \o (IF "l" \in m THEN <<Mk("l", "list", "a")>> ELSE <<>>)
      \o (IF "d" \in m THEN <<Mk("d", "dict", "b")>> ELSE <<>>)
 
-VARIABLES sk, alias, h, defd, fresh, inp, done, prog, out, js
-vars == <<sk, alias, h, defd, fresh, inp, done, prog, out, js>>
+VARIABLES fam, alias, h, defd, fresh, inp, done, prog, out, js
+vars == <<fam, alias, h, defd, fresh, inp, done, prog, out, js>>
+sk == fam.sk
+Alphabet == AlphaOf(fam.alpha)
+Chain == fam.chain
 
 NoOut == [flow |-> "-"]
-Init == /\ sk \in SkSet /\ inp \in InputSet /\ alias \in BOOLEAN
+Init == /\ fam \in Families /\ inp \in InputSet /\ alias = "none"
         /\ h = <<>> /\ defd = Defd0 /\ fresh = {} /\ done = FALSE /\ prog = <<>> /\ out = NoOut /\ js = ""
 
 IntVars == {"a", "b", "x", "y"}
@@ -130,26 +139,27 @@ Fill ==
   /\ LET kind == Slots(sk)[Len(h) + 1] IN
      CASE kind \in {"H", "h"} ->
             \E s \in Alphabet :
-              /\ Reads(s, alias) \subseteq defd
-              /\ (Chain /\ kind = "H" /\ fresh # {}) => Reads(s, alias) \cap fresh # {}
-              /\ h' = Append(h, s)
-              /\ defd' = IF kind = "H" THEN defd \cup Writes(s, alias) ELSE defd
-              /\ fresh' = fresh \cup Writes(s, alias)
+              \E al \in (IF alias = "none" /\ "p" \in Mentions(s) THEN {"alias", "new"} ELSE {alias}) :
+                /\ Reads(s, al) \subseteq defd
+                /\ (Chain /\ kind = "H" /\ fresh # {} /\ s.t # "call") => Reads(s, al) \cap fresh # {}
+                /\ h' = Append(h, s)
+                /\ alias' = al
+                /\ defd' = IF kind = "H" THEN defd \cup Writes(s, al) ELSE defd
+                /\ fresh' = fresh \cup Writes(s, al)
        [] kind \in {"C", "R"} ->
-            \E v \in IntVars \cap defd : h' = Append(h, VarSlot(v)) /\ UNCHANGED <<defd, fresh>>
+            \E v \in IntVars \cap defd : h' = Append(h, VarSlot(v)) /\ UNCHANGED <<defd, fresh, alias>>
        [] kind = "K" ->
-            \E n \in 0..2 : h' = Append(h, CountSlot(n)) /\ UNCHANGED <<defd, fresh>>
-  /\ UNCHANGED <<sk, alias, inp, done, prog, out, js>>
+            \E n \in 0..2 : h' = Append(h, CountSlot(n)) /\ UNCHANGED <<defd, fresh, alias>>
+  /\ UNCHANGED <<fam, inp, done, prog, out, js>>
 
 (* the returned variable: in Chain mode one the last top-level statement wrote, else one the body wrote *)
 LastTop == LET S == {i \in DOMAIN h : Slots(sk)[i] = "H"} IN IF S = {} THEN {} ELSE Writes(h[CHOOSE i \in S : \A j \in S : j <= i], alias)
 RetVars == LET all == {"x", "y"} \cap defd
-           IN IF ~Chain THEN all
+           IN IF ~Chain THEN all \cap fresh
               ELSE IF all \cap LastTop # {} /\ Slots(sk)[Len(Slots(sk))] = "H" THEN all \cap LastTop
               ELSE all \cap fresh
 Finish ==
   /\ ~done /\ Len(h) = Len(Slots(sk))
-  /\ alias \/ \E i \in DOMAIN h : IsStmt(h[i]) /\ "p" \in Mentions(h[i])    \* a second object only if p is used
   /\ \E r \in RetVars :
        LET pr == Prologue(h, alias) \o Body(sk, h) \o <<Ret(r)>>
            res == Run(pr, inp[1], inp[2])
@@ -157,12 +167,12 @@ Finish ==
                  strict |-> res.strict, retp |-> res.retp, ninst |-> res.ninst]
        IN /\ prog' = pr
           /\ out' = o
-          /\ js' = ToJson([prog |-> pr, inp |-> inp, sk |-> sk,
+          /\ js' = ToJson([prog |-> pr, inp |-> inp, sk |-> sk, alpha |-> fam.alpha,
                            exp |-> [flow |-> res.flow, retv |-> res.retv, lines |-> res.lines,
                                     slice |-> res.slice, strict |-> res.strict, retp |-> res.retp,
                                     edges |-> res.edges]])
   /\ done' = TRUE
-  /\ UNCHANGED <<sk, alias, h, defd, fresh, inp>>
+  /\ UNCHANGED <<fam, alias, h, defd, fresh, inp>>
 
 Next == Fill \/ Finish
 Spec == Init /\ [][Next]_vars
@@ -175,11 +185,12 @@ SpecSliceHasCriterion == done => (out.flow = "r" => out.retp \in out.slice)
 StrictContainsSlice == done => out.slice \subseteq out.strict
 DefLineInSlice == done => (out.flow = "r" => ModLine(5) \in out.slice)
 
-QuickSkeletons == {1}
+QuickFamilies == {Fam(1, "full", TRUE), Fam(2, "attr", FALSE)}
 QuickInputs == {<<1, 0>>}
-ThoroughSkeletons == {1, 2}
+ThoroughFamilies == {Fam(1, "core", TRUE), Fam(2, "core", TRUE), Fam(2, "attr", FALSE), Fam(2, "cont", FALSE),
+                     Fam(2, "glob", FALSE)}
 ThoroughInputs == {<<1, 0>>, <<0, 1>>}
-SimSkeletons == AllSkeletons
+SimFamilies == {Fam(n, "full", TRUE) : n \in AllSkeletons}
 AllInputs == (0..2) \X (0..2)
 
 Emit == done => PrintT(<<"HIST", js>>)
